@@ -5,12 +5,14 @@
 package simhook
 
 import (
+	"cmp"
 	"context"
 	"io"
 	"net"
 	"net/http"
 	"os"
 	"reflect"
+	"slices"
 	"sync/atomic"
 )
 
@@ -291,6 +293,35 @@ func SelCh[C any](k *SelState, i int, c C) C {
 		return zero
 	}
 	return c
+}
+
+// ---- map iteration order ----
+
+// MapOrderer is implemented by a world that owns the order in which relic
+// walks a map whose order reaches the schedule.
+type MapOrderer interface {
+	// MapStart returns the index (into the sorted keys) the walk starts at.
+	MapStart(site string, n int) int
+}
+
+// MapKeys is inserted by the overlay generator where relic ranges over a map
+// and the order of the walk decides what happens when (the health check pings
+// its tokens one after the other in map order).  Go draws that order from a
+// source no seed reaches; here the keys are sorted and the simulator chooses
+// where the walk starts, so that one seed is one order.  Every order it can
+// produce is one Go could have produced.
+func MapKeys[K cmp.Ordered, V any](site string, m map[K]V) []K {
+	keys := make([]K, 0, len(m))
+	for k := range m {
+		keys = append(keys, k)
+	}
+	slices.Sort(keys)
+	if mo, ok := W().(MapOrderer); ok && mo != nil && len(keys) > 1 {
+		if at := mo.MapStart(site, len(keys)); at > 0 && at < len(keys) {
+			keys = append(append([]K(nil), keys[at:]...), keys[:at]...)
+		}
+	}
+	return keys
 }
 
 // ---- HTTP transports relic builds for itself (timestamp client) ----
